@@ -10,8 +10,13 @@
           function argument or stored state (only into elapsed-time logging);
  THREAD   no thread identity / thread-local beyond the recursion-depth counter is consulted;
  UUIDCMP  (information) sites where a random cell UUID reaches an ordering comparison are listed.
-Not decided: order-independence of the result (tie-breaking is value-level), uniqueness of the
-Delaunay triangulation."""
+ ORDERKEY the three value-based ordering strategies (lexicographic, Morton, Hilbert) sort with a
+          comparator whose result depends on the vertices' own coordinates (`Vertex::partial_cmp`)
+          and in which the *input position* is compared only inside a `then_with` continuation that
+          follows the coordinate comparison: the position decides only between vertices that are
+          equal in every coordinate (a necessary condition for "the result does not depend on the
+          order in which the caller listed the vertices").
+Not decided: order-independence of the result as a whole, uniqueness of the Delaunay triangulation."""
 import flow
 import gate
 import pair
@@ -55,9 +60,11 @@ def run(ctx):
     ctx.rule('HASHITER', 'no iteration over RandomState-hashed collections in those bodies')
     ctx.rule('CLOCK', 'clock values flow only into elapsed-time logging')
     ctx.rule('THREAD', 'no thread identity; only the recursion-depth thread-local')
+    ctx.rule('ORDERKEY', 'value-based ordering strategies: input position is compared only after the full coordinate comparison')
     for cfg in ctx.cfgs:
         prog = ctx.prog(cfg)
         mod = ctx.mod(cfg)
+        _orderkey(ctx, cfg, prog, mod)
         rts = roots(prog, mod)
         ctx.floor('determinism roots (constructors + exported &mut operations)', 30, len(rts), cfg)
         reach = prog.reachable_from(rts)
@@ -232,3 +239,99 @@ def _clock_leak(prog, b, t):
             elif how == 'switch':
                 return 'a branch condition'
     return None
+
+
+# ------------------------------------------------------------------------------------------ ORDERKEY
+ORDER_FNS = ['core::delaunay_triangulation::order_vertices_lexicographic',
+             'core::delaunay_triangulation::order_vertices_morton',
+             'core::delaunay_triangulation::order_vertices_hilbert']
+SORTS = ('sort_by', 'sort_unstable_by', 'sort_by_key', 'sort_unstable_by_key', 'sort_by_cached_key', 'sort', 'sort_unstable')
+VCMP = '<core::vertex::Vertex as std::cmp::PartialOrd<core::vertex::Vertex>>::partial_cmp'
+POSCMP = '<usize as std::cmp::Ord>::cmp'
+
+
+def _fam(prog, q):
+    out = [q]
+    for c in prog.children.get(q, []):
+        out += _fam(prog, c)
+    return out
+
+
+def _calls_in(prog, q, name):
+    return [(bb, t) for bb, t in prog.bodies[q].calls() if (t.resolved or t.callee) == name]
+
+
+def _closure_args(body, t):
+    out = []
+    for o in t.args:
+        if o.kind == 'k' and o.const and 'closure' in o.const:
+            out.append(o.const['closure'])
+        elif o.place is not None and o.place.is_local():
+            d = body.single_def(o.place.local)
+            if d is not None and d[1] != 'term' and d[2].rv.k == 'agg' and d[2].rv.raw.get('ak') == 'closure':
+                out.append(d[2].rv.raw['def'])
+    return out
+
+
+def _orderkey(ctx, cfg, prog, mod):
+    n = 0
+    for fq in ORDER_FNS:
+        b = ctx.anchor(cfg, fq)
+        if b is None:
+            continue
+        site = '%s:%d' % (b.file, b.line)
+        sorts = [(bb, t) for bb, t in b.calls() if (t.callee or t.resolved or '').rsplit('::', 1)[-1] in SORTS]
+        if not sorts:
+            ctx.ob('ORDERKEY', fq, cfg, False, 'no sort call found in the ordering function', site=site)
+            continue
+        for bb, t in sorts:
+            n += 1
+            last = (t.callee or t.resolved or '').rsplit('::', 1)[-1]
+            cmps = _closure_args(b, t)
+            if last not in ('sort_by', 'sort_unstable_by') or not cmps:
+                ctx.ob('ORDERKEY', fq, cfg, False, 'sort call %s without a comparator closure: the key shape is not recognised' % last, site=site)
+                continue
+            cq = cmps[0]
+            cb = prog.bodies[cq]
+            fam = _fam(prog, cq)
+            has_v = [q for q in fam if _calls_in(prog, q, VCMP)]
+            pos_direct = _calls_in(prog, cq, POSCMP)
+            pos_closures = [q for q in fam if q != cq and _calls_in(prog, q, POSCMP)]
+            ok = bool(has_v) and not pos_direct
+            why = []
+            if not has_v:
+                why.append('the comparator never compares the vertices themselves (Vertex::partial_cmp): ties of the primary key '
+                           'are broken by something that is not a function of the vertex values')
+            if pos_direct:
+                why.append('the input position is compared in the comparator body itself, not in a then_with continuation')
+            # every position comparison sits in a closure handed to a then_with whose receiver already
+            # contains the coordinate comparison
+            al = mod.aliases(cq)
+            for pq in pos_closures:
+                host = prog.bodies[pq].parent
+                hb = prog.bodies.get(host)
+                placed = False
+                if hb is not None:
+                    hal = mod.aliases(host)
+                    for tb, tt in hb.calls():
+                        if not (tt.resolved or tt.callee or '').endswith('Ordering::then_with'):
+                            continue
+                        if pq not in _closure_args(hb, tt) or not tt.args or tt.args[0].place is None:
+                            continue
+                        leaves = valueflow.sources(hb, hal, tt.args[0].place.local)
+                        seen_v = False
+                        for l in leaves:
+                            if l[0] == 'call' and (l[1].resolved or l[1].callee) == VCMP:
+                                seen_v = True
+                            if l[0] == 'call' and (l[1].resolved or l[1].callee or '').endswith('Ordering::then_with'):
+                                for c2 in _closure_args(hb, l[1]):
+                                    if any(_calls_in(prog, x, VCMP) for x in _fam(prog, c2)):
+                                        seen_v = True
+                        placed = placed or seen_v
+                if not placed:
+                    ok = False
+                    why.append('the position comparison in %s does not follow the coordinate comparison' % pq.rsplit('::', 2)[-1])
+            ctx.ob('ORDERKEY', fq, cfg, ok,
+                   '; '.join(why) if why else 'comparator %s: coordinate comparison present; position compared only in a then_with '
+                   'continuation after it (%d site(s))' % (cq.rsplit('::', 1)[-1], len(pos_closures)), site=site)
+    ctx.floor('sort calls in the value-based ordering strategies', 3, n, cfg)
